@@ -12,7 +12,8 @@ Record rcfg := {
   max_container_depth : N;
   max_array_size_bytes : N;
   max_identifier_length : N;
-  max_local_reference_count : N;
+  max_local_reference_count : N;   (* the validator checks MaxLocalReferenceCount and MaxMarkerCount at the same
+                                      place against the same counter: this field is the smaller of the two *)
   expected_version : N;
 }.
 
@@ -280,6 +281,15 @@ Definition mark_object (cfg : rcfg) (dt : N) (c : rctx) : option rctx :=
     end
   end.
 
+(* contextStackEntry.MarkerID.  The entry a marker creates never holds map keys (NotifyKey is only
+   reached after the marker entry has been unstacked), so the model stores the marker's ID in the
+   otherwise unused key list of that entry instead of widening the [entry] record. *)
+Definition tag_marker_entry (id : bytes) (c : rctx) : rctx :=
+  let e := cur c in
+  set_cur c {| e_rule := e_rule e; e_dtype := e_dtype e; e_count := e_count e; e_expected := e_expected e; e_keys := [NkString id] |}.
+Definition entry_marker_id (e : entry) : option bytes :=
+  match e_keys e with [NkString id] => Some id | _ => None end.
+
 Definition local_reference (id : bytes) (allowed : N) (c : rctx) : option rctx :=
   match alookup id (marked c) with
   | Some dt => if N.land dt allowed =? 0 then None else Some c
@@ -438,9 +448,11 @@ Section Exec.
     | PBeginNode => begin_container cfg RNode DT_List None c
     | PEndContainer notify => end_container notify c
     | PBeginMarkerAnyType mk =>
-        Some (stack_rule RMarkedObjectAnyType (mask_value mk) None (set_markers c (a_id a) (marked c) (fwd c) (refcount c)))
+        Some (tag_marker_entry (a_id a)
+               (stack_rule RMarkedObjectAnyType (mask_value mk) None (set_markers c (a_id a) (marked c) (fwd c) (refcount c))))
     | PBeginMarkerKeyable mk =>
-        Some (stack_rule RMarkedObjectKeyable (mask_value mk) None (set_markers c (a_id a) (marked c) (fwd c) (refcount c)))
+        Some (tag_marker_entry (a_id a)
+               (stack_rule RMarkedObjectKeyable (mask_value mk) None (set_markers c (a_id a) (marked c) (fwd c) (refcount c))))
     | PLocalReferenceAnyType => local_reference (a_id a) Allow_Any c
     | PLocalReferenceKeyable => local_reference (a_id a) Allow_Keyable c
     | PValidateFullArrayAnyType => if validate_full_array_any cfg (a_arrty a) (a_count a) (a_data a) then Some c else None
@@ -467,6 +479,11 @@ Section Exec.
     | PMarkObject DtArg => mark_object cfg (a_dtype a) c
     | PMarkObject DtOfArrayType => match array_dtype (a_arrty a) with Some dt => mark_object cfg dt c | None => None end
     | PMarkObject DtNull => mark_object cfg DT_Null c
+    | PMarkContainer =>
+        match entry_marker_id (cur c) with
+        | Some id => mark_object cfg (a_dtype a) (set_markers c id (marked c) (fwd c) (refcount c))
+        | None => mark_object cfg (a_dtype a) (set_markers c [] (marked c) (fwd c) (refcount c))
+        end
     | PArrayRuleChunk => rule_chunk false (a_count a) (a_more a) c
     | PStringRuleChunk => rule_chunk true (a_count a) (a_more a) c
     | PArrayChunkRuleData => chunk_data false (a_data a) c
